@@ -1,5 +1,254 @@
 package main
 
-import "gmsverif/lib/vio"
+import (
+	"encoding/json"
+	"fmt"
+	"sort"
+	"strings"
 
-func replay(in string, rep *vio.Report) {}
+	"gmsverif/lib/vio"
+)
+
+// TR is one transition of a TLC behaviour of spec/SysVars.tla (its Emit record).
+type TR struct {
+	Step int `json:"step"`
+	Act  struct {
+		Name string `json:"name"`
+		S    int    `json:"s"`
+		Var  string `json:"var"`
+		Val  TVal   `json:"val"`
+	} `json:"act"`
+	Ret   string                    `json:"ret"`
+	Alive []int                     `json:"alive"`
+	G     map[string]Val            `json:"g"`
+	S     []sessVals `json:"s"`
+	U     []sessVals `json:"u"`
+}
+
+type sessVals struct {
+	Sid  int            `json:"sid"`
+	Vals map[string]Val `json:"vals"`
+}
+
+func valsOf(l []sessVals, sid int) map[string]Val {
+	for _, x := range l {
+		if x.Sid == sid {
+			return x.Vals
+		}
+	}
+	return nil
+}
+
+func sameVal(a, b Val) bool {
+	an, bn := "0", "0"
+	if a.N != nil {
+		an = a.N.String()
+	}
+	if b.N != nil {
+		bn = b.N.String()
+	}
+	return a.T == b.T && an == bn && a.S == b.S && a.Cls == b.Cls
+}
+
+// resync forces every modelled value to the expected post-state with plain SET statements and
+// verifies it by reading back.
+func resync(sessions map[int]*session, tr TR) bool {
+	lit := func(v Val) (string, bool) {
+		switch v.T {
+		case "int", "str":
+			return Val{T: v.T, N: v.N, S: v.S}.SQL(), true
+		case "null":
+			return "NULL", true
+		}
+		return "", false
+	}
+	any := sessions[tr.Alive[0]]
+	for name, v := range tr.G {
+		if got := any.read("@@global." + name); !sameVal(got, v) {
+			l, ok := lit(v)
+			if !ok || !any.exec("SET GLOBAL "+name+" = "+l).ok || !sameVal(any.read("@@global."+name), v) {
+				return false
+			}
+		}
+	}
+	for _, sv := range tr.S {
+		s := sessions[sv.Sid]
+		for name, v := range sv.Vals {
+			if v.T == "err" {
+				continue
+			}
+			if got := s.read("@@session." + name); !sameVal(got, v) {
+				l, ok := lit(v)
+				if !ok || !s.exec("SET SESSION "+name+" = "+l).ok || !sameVal(s.read("@@session."+name), v) {
+					return false
+				}
+			}
+		}
+	}
+	for _, uv := range tr.U {
+		s := sessions[uv.Sid]
+		for name, v := range uv.Vals {
+			if got := s.read("@" + name); !sameVal(got, v) {
+				l, ok := lit(v)
+				if !ok || !s.exec("SET @"+name+" = "+l).ok || !sameVal(s.read("@"+name), v) {
+					return false
+				}
+			}
+		}
+	}
+	return true
+}
+
+func show(v Val) string {
+	if v.T == "int" {
+		return v.N.String() + ":" + v.Cls
+	}
+	return v.T + ":" + v.S + ":" + v.Cls
+}
+
+// replay executes the behaviours; after a disagreement the rest of that behaviour is skipped
+// (the engine's state has left the specification's).
+func replay(in string, rep *vio.Report) {
+	descs := map[string]Desc{}
+	newWorld()
+	for _, d := range allDescs() {
+		descs[d.Name] = d
+	}
+	var w *world
+	sessions := map[int]*session{}
+	skipping := false
+	behaviours, skipped := 0, 0
+	resyncs := 0
+	byAct := map[string]int{}
+	var prefix []json.RawMessage
+	err := vio.ReadNDJSON(in, func(i int, line []byte) error {
+		var tr TR
+		if err := json.Unmarshal(line, &tr); err != nil {
+			return err
+		}
+		if tr.Step == 1 {
+			w = newWorld()
+			sessions = map[int]*session{1: w.session()}
+			skipping = false
+			behaviours++
+			prefix = prefix[:0]
+		}
+		prefix = append(prefix, append(json.RawMessage{}, line...))
+		if skipping {
+			skipped++
+			return nil
+		}
+		rep.Cases++
+		byAct[tr.Act.Name+"/"+tr.Ret]++
+		lit := tr.Act.Val.val()
+		var q string
+		switch tr.Act.Name {
+		case "SetSession":
+			q = fmt.Sprintf("SET SESSION %s = %s", tr.Act.Var, lit.SQL())
+		case "SetGlobal":
+			q = fmt.Sprintf("SET GLOBAL %s = %s", tr.Act.Var, lit.SQL())
+		case "SetUser":
+			q = fmt.Sprintf("SET @%s = %s", tr.Act.Var, lit.SQL())
+		case "NewSession":
+			sessions[tr.Act.S] = w.session()
+		default:
+			return fmt.Errorf("unknown action %s", tr.Act.Name)
+		}
+		d := descs[tr.Act.Var]
+		sigBase := fmt.Sprintf("A|%s|%s/%s|lit=%s", tr.Act.Name, d.Type, d.Scope, lit.T)
+		mismatch := func(what string, exp, got interface{}) {
+			rep.Mismatches = append(rep.Mismatches, vio.Mismatch{Case: i, Signature: sigBase + "|" + what, Expected: exp, Got: got,
+				Input: map[string]interface{}{"sql": q, "behaviour": append([]json.RawMessage{}, prefix...)}})
+			// resynchronise the engine with the specification's post-state so that the rest of the
+			// behaviour is still checked; when that is impossible the rest is skipped
+			skipping = !resync(sessions, tr)
+			if !skipping {
+				resyncs++
+			}
+		}
+		if q != "" {
+			s := sessions[tr.Act.S]
+			if s == nil {
+				return fmt.Errorf("line %d: session %d does not exist", i, tr.Act.S)
+			}
+			r := s.exec(q)
+			got := "ok"
+			if !r.ok {
+				got = "err"
+				if errClass(r.msg) == "panic" {
+					got = "panic"
+				}
+			}
+			if got != tr.Ret {
+				mismatch("ret="+got, tr.Ret, got+" "+r.msg)
+				return nil
+			}
+			if tr.Ret == "ok" {
+				rep.Nontrivial++
+			}
+		}
+		// observe everything the specification models
+		var alive []int
+		for s := range sessions {
+			alive = append(alive, s)
+		}
+		sort.Ints(alive)
+		if len(alive) != len(tr.Alive) {
+			return fmt.Errorf("line %d: alive sessions differ", i)
+		}
+		vars := make([]string, 0, len(tr.G))
+		for v := range tr.G {
+			vars = append(vars, v)
+		}
+		sort.Strings(vars)
+		for _, v := range vars {
+			for _, s := range alive {
+				if got := sessions[s].read("@@global." + v); !sameVal(got, tr.G[v]) {
+					mismatch("global:"+descs[v].Type, show(tr.G[v]), fmt.Sprintf("@@global.%s in session %d = %s", v, s, show(got)))
+					return nil
+				}
+			}
+		}
+		for _, s := range alive {
+			exp := valsOf(tr.S, s)
+			names := make([]string, 0, len(exp))
+			for v := range exp {
+				names = append(names, v)
+			}
+			sort.Strings(names)
+			for _, v := range names {
+				if got := sessions[s].read("@@session." + v); !sameVal(got, exp[v]) {
+					who := "other"
+					if s == tr.Act.S {
+						who = "own"
+					}
+					mismatch("session:"+who+":"+descs[v].Type, show(exp[v]), fmt.Sprintf("@@session.%s in session %d = %s", v, s, show(got)))
+					return nil
+				}
+			}
+			uexp := valsOf(tr.U, s)
+			for u, ev := range uexp {
+				if got := sessions[s].read("@" + u); !sameVal(got, ev) {
+					mismatch("uservar", show(ev), fmt.Sprintf("@%s in session %d = %s", u, s, show(got)))
+					return nil
+				}
+			}
+		}
+		if len(rep.Samples) < 3 && tr.Step > 6 && i%53 == 0 {
+			rep.Samples = append(rep.Samples, map[string]interface{}{"step": tr.Step, "sql": q, "ret": tr.Ret})
+		}
+		return nil
+	})
+	if err != nil {
+		vio.Fatal("%v", err)
+	}
+	rep.Extra["behaviours"] = behaviours
+	rep.Extra["resynchronisations"] = resyncs
+	rep.Extra["steps_skipped_after_divergence"] = skipped
+	rep.Extra["by_action"] = byAct
+	if len(rep.Mismatches) > 60 {
+		rep.Extra["mismatches_total"] = len(rep.Mismatches)
+		rep.Mismatches = rep.Mismatches[:60]
+	}
+	_ = strings.ToLower
+}
